@@ -32,6 +32,9 @@ REQUIRED_PROBES = {"quick": ["fault.recovered", "chain.i2t", "chain.t2i", "pni.w
 LR = (64, 128, 192, 254)
 
 
+RUN_CPU_LIMIT_S = {"thorough": 900}        # one run = up to ~400 complete conversations (all double fault scripts)
+
+
 def phases(tier):
     q = tier == "quick"
     return [{"name": "scripts", "runs": 160 if q else 6000, "params": {"pairs": "sample" if q else "all"}}]
